@@ -28,7 +28,7 @@ func (p *Prog) loadField(st *State, ptr *Expr, typ, name string) *Expr {
 	if f == nil {
 		return nil
 	}
-	fa := mkFieldAddr(ptr, name, 0, types.NewPointer(f.Type()))
+	fa := mkFieldAddr(ptr, name, 0, types.NewPointer(f.Type()), typ)
 	return st.load(fa, f.Type())
 }
 
